@@ -121,3 +121,20 @@ def page_xml(page_spec, page_id):
     out.append('  </Page>')
     out.append('</PcGts>')
     return '\n'.join(out) + '\n'
+
+
+def paint_text_page(page_spec):
+    """White page with dark word-like bars in line bands: input for the model-free layout
+    parsers (REGION_WHOLE_PAGE + LINES_SIMPLE_THRESHOLD), which need no XML and no network."""
+    nl = len(page_spec['lines'])
+    width = 80 + 12 * max([ln['blocks'] for ln in page_spec['lines']] + [6])
+    height = 60 + 50 * max(1, nl)
+    img = np.full((height, width, 3), 255, dtype=np.uint8)
+    for j, ln in enumerate(page_spec['lines']):
+        rs = np.random.RandomState(int(ln['seed']) % (2 ** 31))
+        y = 40 + 50 * j
+        for b in range(int(ln['blocks'])):
+            if rs.rand() < 0.85:
+                x = 30 + 12 * b
+                img[y - 14:y, x:x + 8] = 0
+    return img
